@@ -467,7 +467,7 @@ class Executor:
         m = re.match(r"^(?:[\w:<>, ]+::)?(\w+)::(\w+)$", t)
         if m and m.group(1) in self.enums and m.group(2) in self.enums[m.group(1)]:
             return ("enum", m.group(1), self.enums[m.group(1)].index(m.group(2)))
-        if re.match(r"^[A-Za-z_][\w:]*$", t) or t == "()" or t.startswith("PhantomData"):
+        if re.match(r"^[A-Za-z_][\w:]*$", t) or t == "()" or t.startswith("PhantomData") or t.startswith("ZeroSized:") or t.startswith("{closure@"):
             return ("unit",)      # field-less ADT constant (unit struct, PhantomData): no leaves
         raise Untranslatable("constant " + t)
 
@@ -873,11 +873,18 @@ class Executor:
                 self.paths.append(Path(st, "untranslatable", str(e), fn))
                 return
             term = stmts[-1].rstrip(";")
+            try:
+                return self.exec_term(st, fn, bb, term, frame, stack)
+            except Untranslatable as e:
+                self.paths.append(Path(st, "untranslatable", str(e), fn))
+                return
+
+    def exec_term(self, st, fn, bb, term, frame, stack):
+        if True:
             # ---- terminators
             m = re.match(r"^goto -> (bb\d+)$", term)
             if m:
-                bb = m.group(1)
-                continue
+                return self.exec_block(st, fn, m.group(1), frame, stack)
             if term == "return":
                 if stack:
                     (cfn, cframe, cdst, cbb) = stack[-1]
@@ -922,12 +929,10 @@ class Executor:
                 bad.conds.append("(not %s)" % ok)
                 self.paths.append(Path(bad, "panic", m.group(3), fn))
                 st.conds.append(ok)
-                bb = m.group(4)
-                continue
+                return self.exec_block(st, fn, m.group(4), frame, stack)
             m = re.match(r"^drop\((.*)\) -> \[return: (bb\d+), unwind.*\]$", term)
             if m:
-                bb = m.group(2)
-                continue
+                return self.exec_block(st, fn, m.group(2), frame, stack)
             m = re.match(r"^(.*?) = (.*) -> \[return: (bb\d+), unwind.*\]$", term)
             if m and m.group(2).endswith(")"):
                 dst_text, nxt = m.group(1), m.group(3)
@@ -961,8 +966,7 @@ class Executor:
                         elif av[0] == "enum":
                             st.store[nframe + an + "#discr"] = Val(bvconst(av[2], 64), ("bv", 64, True))
                     return self.exec_block(st, cfn, "bb0", nframe, stack + [(fn, frame, dst_text, nxt)])
-                bb = nxt
-                continue
+                return self.exec_block(st, fn, nxt, frame, stack)
             m = re.match(r"^(.*?)\((.*)\) -> unwind.*$", term)
             if m:
                 self.paths.append(Path(st, "panic", "diverging call " + m.group(1), fn))
